@@ -42,6 +42,17 @@ fn sym_bytes(s: &str) -> Vec<u8> {
         ">" => b">".to_vec(),
         // one symbol, many bytes: larger than any read buffer, TLS record or SSH packet
         "X" => vec![b'y'; BIG],
+        // the bytes of multi-byte characters as symbols of their own, so that a cut can fall inside a character:
+        // U1 U2 = e-acute, E1 E2 E3 = euro sign, G1..G4 = an emoji
+        "U1" => vec![0xc3],
+        "U2" => vec![0xa9],
+        "E1" => vec![0xe2],
+        "E2" => vec![0x82],
+        "E3" => vec![0xac],
+        "G1" => vec![0xf0],
+        "G2" => vec![0x9f],
+        "G3" => vec![0x98],
+        "G4" => vec![0x80],
         other => other.as_bytes().to_vec(),
     }
 }
@@ -679,7 +690,12 @@ fn body_syms(s: &str) -> Vec<String> {
                         continue;
                     }
                 }
-                out.push(cs[i].to_string());
+                match cs[i] {
+                    '\u{e9}' => out.extend(["U1", "U2"].map(String::from)),
+                    '\u{20ac}' => out.extend(["E1", "E2", "E3"].map(String::from)),
+                    '\u{1f600}' => out.extend(["G1", "G2", "G3", "G4"].map(String::from)),
+                    c => out.push(c.to_string()),
+                }
                 i += 1;
             }
             out
@@ -769,6 +785,22 @@ async fn drive_session<T: netconf::transport::Transport>(
         },
     };
     ev["after"] = after;
+    // ... and closing the session is an operation too: once the peer has gone it must end (with an error or not), not hang
+    if case["close"].as_str().unwrap_or("none") != "none" {
+        let closing = async {
+            match session.close().await {
+                Err(e) => json!({"out": "err", "at": "send", "err": err_class(&e)}),
+                Ok(f) => match f.await {
+                    Ok(()) => json!({"out": "ok"}),
+                    Err(e) => json!({"out": "err", "err": err_class(&e)}),
+                },
+            }
+        };
+        ev["closeop"] = match timeout(WATCHDOG, closing).await {
+            Err(_) => json!({"out": "timeout"}),
+            Ok(v) => v,
+        };
+    }
     ev
 }
 
